@@ -5,7 +5,10 @@
 (* checksums the generator sent) must satisfy Confine!Confined: nothing    *)
 (* outside the destination root was created, modified, deleted,            *)
 (* re-permissioned, re-owned or read.  What happens inside the root and    *)
-(* whether the session ends with an error are not constrained.             *)
+(* how the session ends are not constrained (a session that crashes or     *)
+(* never returns is C08's / C18's business; such runs carry no observation *)
+(* of the outside region and are not judged here - the check counts them   *)
+(* and gives no verdict at all if they are more than a handful).           *)
 EXTENDS Integers, Sequences, Json, IOUtils, TLC
 
 Traces == ndJsonDeserialize(IOEnv.VERIF_TRACE)
@@ -16,7 +19,6 @@ Tr == Traces[t]
 Confined == /\ Len(Tr.changed) = 0        \* touched = {} : no outside object changed
             /\ Len(Tr.events) = 0         \* ... or was opened / read / re-permissioned meanwhile
             /\ ~Tr.leak                   \* no checksums of outside data left the process
-            /\ Tr.result \in {"ok", "err"}  \* the receiver returned (no crash, no hang)
 
 Init == t \in 1..Len(Traces) /\ st = "run"
 Check == /\ st = "run"
